@@ -84,6 +84,50 @@ fn sweep<const D: usize>(rng: &mut Rng, out: &mut Out, reps: usize) {
     let _ = n;
 }
 
+/// tight clusters: three or four collinear interior points spaced 2^-k apart (far above the 1e-10
+/// duplicate tolerance, far below the extent): the cells around the middle one are slivers whose
+/// in-sphere determinants drown in the fast kernel's tolerance, so a conflict region can swallow
+/// every cell of an existing vertex.  Every guarantee x validation policy x repair policy, both
+/// insertion APIs, the state judged after every call.
+fn cluster_sweep<const D: usize>(rng: &mut Rng, out: &mut Out, reps: usize) {
+    use delaunay::core::delaunay_triangulation::{DelaunayCheckPolicy, DelaunayRepairPolicy};
+    use delaunay::core::triangulation::ValidationPolicy;
+    for g in 0..3usize {
+        for vpi in 0..3usize {
+            for rpi in 0..2usize {
+                for rep in 0..reps {
+                    let k = [20i32, 14, 17, 23, 26][(g + vpi + rpi + rep) % 5];
+                    let delta = 2f64.powi(-k);
+                    let np = D + 1 + rng.below(3) as usize;
+                    let ps = gens::point_set(rng, D, np);
+                    let Some(mut w): Option<World<D>> = hist::start_built::<D>(&ps.pts, g, rng) else { continue };
+                    if w.dt.number_of_cells() == 0 { continue; }
+                    let vp = [ValidationPolicy::OnSuspicion, ValidationPolicy::Never, ValidationPolicy::Always][vpi];
+                    let rp = [DelaunayRepairPolicy::EveryInsertion, DelaunayRepairPolicy::Never][rpi];
+                    let _ = crate::common::catch(|| w.dt.set_validation_policy(vp));
+                    w.dt.set_delaunay_repair_policy(rp);
+                    w.dt.set_delaunay_check_policy(DelaunayCheckPolicy::EndOnly);
+                    w.check_on = false;
+                    w.repair_on = rpi == 0;
+                    let pol = format!("{vp:?}/{rp:?}/EndOnly").replace(' ', "");
+                    // an interior dyadic point: average of four live vertices
+                    let (u, _) = w.pick_point_class(rng, 8, 6);
+                    let ax = rng.below(D as u64) as usize;
+                    let at = |m: f64| { let mut q = u; q[ax] += m * delta; q };
+                    let seq: Vec<[f64; D]> = if rep % 2 == 0 { vec![at(-1.0), at(0.0), at(1.0), at(2.0)] } else { vec![at(0.0), at(1.0), at(-1.0), at(-2.0)] };
+                    for (s, p) in seq.iter().enumerate() {
+                        let with_stats = (s + rep) % 2 == 1;
+                        let (obs, _inserted) = w.do_insert(*p, with_stats, rng);
+                        let args = format!("{} class=tight_cluster pol={pol} stats={}", w.expect_args(false), with_stats as u8);
+                        w.emit_state(&format!("tc{D}_{g}_{vpi}_{rpi}_{rep}_{s}"), "insert", &args, &obs, out, false);
+                        if w.dt.number_of_cells() > 0 && w.dt.as_triangulation().is_valid().is_err() { break; }
+                    }
+                }
+            }
+        }
+    }
+}
+
 /// bootstrap with a degenerate (D+1)-th point: D affinely independent points, then a point in
 /// their affine hull (the initial simplex cannot be built), then completing points - for every
 /// guarantee and with the Delaunay-layer snapshot on (repair EveryInsertion) and off (Never)
@@ -139,6 +183,9 @@ pub fn run(cfg: &Cfg, rng: &mut Rng, out: &mut Out) {
     boot_sweep::<4>(rng, out);
     boot_sweep::<5>(rng, out);
     let reps = if thorough { 4 } else { 1 };
+    cluster_sweep::<2>(rng, out, 2 * reps);
+    cluster_sweep::<3>(rng, out, 2 * reps);
+    cluster_sweep::<4>(rng, out, reps);
     sweep::<2>(rng, out, reps);
     sweep::<3>(rng, out, reps);
     sweep::<4>(rng, out, reps);
